@@ -329,6 +329,19 @@ class Or(CompoundQuery):
             norm.scale = self.scale
         return norm
 
+    def apply(self, fn):
+        q = CompoundQuery.apply(self, fn)
+        q.minmatch = self.minmatch
+        q.scale = self.scale
+        return q
+
+    def simplify(self, ixreader):
+        q = CompoundQuery.simplify(self, ixreader)
+        if q.__class__ is self.__class__:
+            q.minmatch = self.minmatch
+            q.scale = self.scale
+        return q
+
     def requires(self):
         if len(self.subqueries) == 1:
             return self.subqueries[0].requires()
@@ -477,6 +490,17 @@ class DisjunctionMax(CompoundQuery):
         if norm.__class__ is self.__class__:
             norm.tiebreak = self.tiebreak
         return norm
+
+    def apply(self, fn):
+        q = CompoundQuery.apply(self, fn)
+        q.tiebreak = self.tiebreak
+        return q
+
+    def simplify(self, ixreader):
+        q = CompoundQuery.simplify(self, ixreader)
+        if q.__class__ is self.__class__:
+            q.tiebreak = self.tiebreak
+        return q
 
     def requires(self):
         if len(self.subqueries) == 1:
